@@ -72,6 +72,15 @@ def build(spec):
         return "other", f"{type(e).__name__}: {e}"
 
 
+def build_scalar(spec):
+    try:
+        return "ok", Shaped[float, spec]
+    except ValueError as e:
+        return "ValueError", str(e)
+    except BaseException as e:  # noqa: BLE001
+        return "other", f"{type(e).__name__}: {e}"
+
+
 def vector(ann, uses_q):
     out = []
     for cid in (0, 1, 2):
@@ -122,6 +131,19 @@ def check_spec(ctx, tokens, seps=None, *, probe=True):
         raise Violation("illegal-accepted", case, f"illegal spec {spec!r} was accepted")
     if legal is True and kind != "ok":
         raise Violation("legal-rejected", case, f"legal spec {spec!r} rejected with ValueError: {res}")
+    # the same rules hold when the array type is a Python scalar type: an illegal spec is a ValueError all the same, a legal one gives
+    # the scalar type itself or ValueError (shape does not admit rank 0) -- exactly what its canonical spelling gives
+    sk, sres = build_scalar(spec)
+    if sk == "other":
+        raise Violation("totality", dict(case, array_type="float"), f"building Shaped[float, {spec!r}] raised {sres} (only ValueError is allowed)")
+    if legal is False and sk != "ValueError":
+        raise Violation("illegal-accepted", dict(case, array_type="float"), f"illegal spec {spec!r} was accepted with the scalar array type float (result {sres!r})")
+    if legal is True:
+        canon0 = dl.spec_spelling(dl.canonical_tokens([t.meaning() for t in tokens]))
+        ck_, cres = build_scalar(canon0)
+        if (sk, sres if sk == "ok" else None) != (ck_, cres if ck_ == "ok" else None):
+            raise Violation("meaning-differs", dict(case, array_type="float"),
+                            f"Shaped[float, {spec!r}] gives {sk} {sres if sk == 'ok' else ''} but its canonical spelling {canon0!r} gives {ck_} {cres if ck_ == 'ok' else ''}")
     if legal is not True or not probe:
         return
     meanings = [t.meaning() for t in tokens]
